@@ -539,7 +539,7 @@ def c19_delete_channel_with_references():
     jax, jnp, np, jx = _mods()
     from jaxley.channels import HH, Leak
     bad = []
-    for what in ("record", "clamp", "trainable", "record, channel survives elsewhere"):
+    for what in ("record", "clamp", "trainable"):
         cell = jx.Cell([jx.Branch(jx.Compartment(), 2)] * 2, parents=[-1, 0])
         cell.insert(Leak()); cell.insert(HH())
         cell.branch(0).comp(0).record("v", verbose=False)
@@ -555,18 +555,30 @@ def c19_delete_channel_with_references():
         except ValueError:
             continue                                           # refused, nothing changed
         comp_states, _ = cell._get_state_names()
-        dangling = [s for s in cell.recordings.state if s not in comp_states or (s in cell.nodes.columns and cell.nodes[s].isna()[int(cell.recordings.rec_index[list(cell.recordings.state).index(s)])])]
+        dangling = [s for s in cell.recordings.state if s not in comp_states]
         dangling += [k for k in cell.externals if k not in ("i", "v") and k not in comp_states]
         dangling += [k for p in cell.trainable_params for k in p if k not in cell.nodes.columns]
         err = None
         try:
             out = np.asarray(jx.integrate(cell, t_max=0.1, params=cell.get_parameters()))
-            if not np.isfinite(out).all():
-                err = "NaN rows in the recordings"
         except Exception as ex:
             err = repr(ex)[:120]
         if dangling or err:
             bad.append({"history": f"insert HH; {what} HH_m / HH_gNa; delete_channel(HH)", "dangling": dangling, "integrate": err})
+    # F69: the state is recorded only on compartments that never had the channel; deleting the channel where it is
+    # makes the state disappear from the module
+    cell = jx.Cell([jx.Branch(jx.Compartment(), 2)] * 2, parents=[-1, 0])
+    cell.insert(Leak()); cell.branch(0).insert(HH())
+    cell.record("HH_m", verbose=False)
+    cell.branch(0).delete_recordings()
+    try:
+        cell.branch(0).delete_channel(HH())
+        comp_states, _ = cell._get_state_names()
+        dangling = [s for s in cell.recordings.state if s not in comp_states]
+        if dangling:
+            bad.append({"history": "HH on branch 0; record HH_m everywhere; delete the recordings of branch 0; delete_channel(HH) on branch 0", "dangling": dangling})
+    except ValueError:
+        pass
     if bad:
         return {"kind": "delete_channel leaves recordings / clamps / trainables of the deleted channel behind", "cases": bad}
 
